@@ -101,6 +101,18 @@ func recordsItself(tr *TypeRole, c ssa.CallInstruction) bool {
 			if isNil(e) || isStickyLoad(e, f.Params[0], tr.Sticky) {
 				continue
 			}
+			// the value returned is the one just stored in the sticky field
+			stored := false
+			for _, b2 := range f.Blocks {
+				for _, in2 := range b2.Instrs {
+					if st, ok := in2.(*ssa.Store); ok && st.Val == e && isStickyStore(st, f.Params[0], tr.Sticky) && dominatesInstr(st, ret) {
+						stored = true
+					}
+				}
+			}
+			if stored {
+				continue
+			}
 			return false
 		}
 	}
